@@ -146,9 +146,51 @@ def logical_schemas(subs):
     return out
 
 
+def crosscut_schemas():
+    """keywords that the translator handles in different places, side by side in one schema"""
+    out = []
+    # enum / const next to another constraint of the same schema: a listed value that the other keyword forbids
+    out += [{"type": "integer", "enum": [1, 2, 30], "maximum": 10}, {"type": "integer", "const": 30, "maximum": 10},
+            {"type": "string", "enum": ["a", "abc"], "maxLength": 2}, {"type": "string", "const": "abc", "pattern": "^a$"},
+            {"enum": [1, 11], "maximum": 10}, {"type": "integer", "enum": [3, 4], "multipleOf": 2},
+            {"type": "array", "items": {"type": "integer", "enum": [1, 11], "maximum": 10}},
+            {"type": "object", "properties": {"a": {"type": "integer", "enum": [1, 11], "maximum": 10}}}]
+    # an explicit type next to a combinator
+    for kw in ("anyOf", "oneOf", "allOf"):
+        out.append({"type": "integer", kw: [{"minimum": 2}, {"maximum": 3}]})
+        out.append({"type": "string", kw: [{"maxLength": 1}, {"pattern": "^a"}]})
+        out.append({"type": "integer", kw: [{"type": "integer", "minimum": 2}, {"type": "integer", "maximum": 3}]})
+        out.append({"type": "array", kw: [{"minItems": 2}, {"maxItems": 2}]})
+        out.append({"type": "object", "properties": {"a": {"type": "integer"}}, kw: [{"required": ["a"]}, {"minProperties": 2}]})
+        out.append({"type": "integer", "minimum": 0, kw: [{"type": "integer", "maximum": 3}, {"type": "integer", "multipleOf": 2}]})
+        # the same member twice
+        out.append({kw: [{"type": "integer"}, {"type": "integer"}]})
+        out.append({kw: [{"type": "integer", "minimum": 0}, {"type": "integer", "minimum": 0}]})
+        out.append({kw: [{"type": "string"}, {"type": "integer"}, {"type": "string"}]})
+    # properties counted with and without the keys that are not declared
+    for add in ("absent", True, {"type": "integer"}):
+        for kw in ({"minProperties": 2}, {"maxProperties": 1}, {"minProperties": 2, "maxProperties": 2}):
+            s = {"type": "object", "properties": {"a": {"type": "integer"}}, **kw}
+            if add != "absent":
+                s["additionalProperties"] = add
+            out.append(s)
+    out.append({"type": "object", "minProperties": 2, "additionalProperties": {"type": "integer"}})
+    # dependentRequired over names that are not declared properties
+    out += [{"type": "object", "properties": {"a": {"type": "integer"}}, "dependentRequired": {"a": ["zz"]}},
+            {"type": "object", "properties": {"a": {"type": "integer"}}, "dependentRequired": {"zz": ["a"]}},
+            {"type": "object", "dependentRequired": {"a": ["b"]}},
+            {"type": "object", "properties": {"a": {"type": "integer"}}, "dependentRequired": {"a": ["zz"]}, "additionalProperties": True},
+            {"type": "object", "properties": {"a": {"type": "integer"}}, "dependentRequired": {"a": ["zz"]}, "additionalProperties": False},
+            {"dependentRequired": {"a": ["b"]}},
+            {"type": "object", "properties": {"a": {"type": "integer"}, "b": {"type": "integer"}}, "dependentRequired": {"a": ["b", "zz"]}},
+            {"type": "object", "properties": {"a": {"type": "integer"}, "b": {"type": "integer"}}, "dependentRequired": {"a": []}}]
+    return out
+
+
 def schemas(tier):
     sc = scalar_schemas()
     out = list(sc)
+    out += crosscut_schemas()
     out += array_schemas(CORE)
     out += object_schemas(CORE, tier)
     out += logical_schemas(CORE[:6])
@@ -240,6 +282,39 @@ def shape_of(schema):
     return f"{t}{{{','.join(ks)}}}{names}"
 
 
+COMBINATORS = ("anyOf", "oneOf", "allOf")
+
+
+def _valid(schema, value):
+    return jsonschema.Draft202012Validator(schema).is_valid(value)
+
+
+def _subclass(schema, inst, enc, kw):
+    """semantic sub-classes of the recorded design-level findings (a fingerprint without one of these tags is never
+    covered by them)"""
+    if "type" in schema and any(k in schema for k in COMBINATORS):
+        # a combinator beside an explicit type is not translated: the value is what the schema without the combinator allows
+        if _valid({k: v for k, v in schema.items() if k not in COMBINATORS}, enc):
+            return "@combinator-beside-type-ignored"
+        return ""
+    if kw == ["oneOf"] and "type" not in schema:
+        members = schema["oneOf"]
+        ok = [m for m in members if _valid(m, enc)]
+        if isinstance(enc, list) and any("prefixItems" in m and len(m["prefixItems"]) != len(enc) for m in ok if isinstance(m, dict)):
+            # a fixed-length tuple demands exactly its positions, so that member did not claim the shorter / longer array
+            return "@prefixitems-other-length"
+        if len(ok) > 1 and all(json.dumps(m, sort_keys=True) == json.dumps(ok[0], sort_keys=True) for m in ok):
+            # equal members are merged into one
+            return "@oneof-equal-members"
+        return ""
+    if "minProperties" in kw and isinstance(inst, dict) and isinstance(enc, dict):
+        gone = [k for k in inst if k not in enc]
+        if gone and all(hasattr(_NS["Schema"], k) for k in gone) and len(enc) + len(gone) >= schema.get("minProperties", 0):
+            # counted for minProperties, then dropped as the name of an attribute of the Schema base class
+            return "@extra-key-named-like-base-attribute"
+    return ""
+
+
 def run_shard(shard, tier):
     _, lo, hi = shard
     acc = Acc()
@@ -298,8 +373,8 @@ def run_shard(shard, tier):
             if errs:
                 acc.outcomes["forbidden-value"] += 1
                 kw = sorted({e.validator for e in errs})
-                tag = ""
-                if isinstance(schema.get("allOf"), list) and len(schema["allOf"]) > 1:
+                tag = _subclass(schema, inst, enc, kw)
+                if not tag and isinstance(schema.get("allOf"), list) and len(schema["allOf"]) > 1:
                     # sub-class of the recorded design-level finding: the conjunction converts in sequence, so what it
                     # returns satisfies its last member although an earlier member does not accept that value
                     ok = [jsonschema.Draft202012Validator(m).is_valid(enc) for m in schema["allOf"]]
